@@ -26,6 +26,7 @@
 #endif
 m_ctx_t *vf_the_ctx;
 void *pthread_getspecific(pthread_key_t k) { (void)k; return vf_the_ctx; }
+int pthread_once(pthread_once_t *o, void (*fn)(void)) { (void)o; (void)fn; return 0; }   /* the key exists (m_ctx() creates it on first use) */
 void fetch_ms(uint64_t *val, uint64_t *ctr) { *val = nondet_u64(); if (ctr) (*ctr)++; }
 int regcomp(regex_t *r, const char *p, int fl) { (void)r; (void)p; (void)fl; return 0; }
 int regexec(const regex_t *r, const char *s, size_t n, regmatch_t *m, int fl) { (void)r; (void)s; (void)n; (void)m; (void)fl; return REG_NOMATCH; }
